@@ -93,6 +93,10 @@ var c14Kinds = []vkind{
 	{"string-invalid-utf8", func(r *core.Rng) string {
 		return quoteGrol(core.Pick(r, []string{"\xff", "a\xc3", "\xe2\x82", "\xf0\x9f\x98", "ok\x80ok", "\xed\xa0\x80"}))
 	}},
+	{"string-invalid-utf8-sliced", func(r *core.Rng) string {
+		// bytes >= 0x80 obtained by slicing valid UTF-8, i.e. without going through the lexer's \\x escape
+		return core.Pick(r, []string{`"é"[0:1]`, `"é"[1:2]`, `"😀"[0:3]`, `"€"[1:3]`, `"aé"[0:2]`, `("é"[0:1] + "x" + "ß"[1:2])`})
+	}},
 	{"string-unicode-escapes", func(r *core.Rng) string {
 		return quoteGrol(core.Pick(r, []string{"\u0085", "\u00a0", "\ue000", "\U000e0001", "\u2028", "\ufeff"}))
 	}},
@@ -204,6 +208,16 @@ func (c14) Generate(r *core.Rng, run int, tier string) *core.History {
 			h.Events = append(h.Events, core.Event{Ev: "func", Name: f.Name, Text: src, Key: kind, Args: calls})
 		}
 	}
+	if r.Bool(.15) {
+		// a named function whose saved line is several KB long (functions are never length limited)
+		terms := make([]string, 0, 1100)
+		for k, n := 0, 500+r.Intn(600); k < n; k++ {
+			terms = append(terms, strconv.Itoa(k%97))
+		}
+		h.Events = append(h.Events, core.Event{Ev: "func", Name: "bigfn", Key: "func-named-long",
+			Text: "func bigfn(x) { x + " + strings.Join(terms, " + ") + " }", Args: []string{"bigfn(1)", "bigfn(-5)"}})
+		h.Events = append(h.Events, core.Event{Ev: "bind", Name: "v_zlast", Text: "v_zlast = 7", Key: "int"})
+	}
 	cycles := 1 + r.Intn(3)
 	for c := 0; c < cycles; c++ {
 		sk := core.Pick(r, []string{"save-ext", "saveglobals", "autosave"})
@@ -306,7 +320,7 @@ func (c14) Execute(h *core.History) *core.Outcome {
 			if e.Ev == "func" {
 				b.results = callAll(b)
 			}
-			if e.Key == "func-named" {
+			if strings.HasPrefix(e.Key, "func-named") {
 				// named functions are written whatever their length
 			} else if o, err := sess.ObserveObj(e.Name); err == nil && cfg.MaxValueLen > 0 && len(o.Inspect()) > cfg.MaxValueLen {
 				b.tooLong = true
